@@ -45,6 +45,9 @@ type Env struct {
 	loopSt   *State // state at loop entry (for loop frames)
 	phiVal   func(ph interface{}) (Term, bool)
 	anchors  map[string]*anchor // quantified int variables (by SMT name) -> slice they index
+	// in loop clauses a name denotes the variable's current value (a phi), not the parameter's entry value
+	preferResolve bool
+	shadowable    map[string]bool
 	inOld    bool
 }
 
@@ -120,6 +123,13 @@ func (env *Env) eval(ex Expr) (TV, error) {
 	case *NilLit:
 		return TV{"0", types.Typ[types.UntypedNil]}, nil
 	case *Ident:
+		if env.preferResolve && !env.inOld && env.resolve != nil {
+			if _, isQ := env.vars[n.Name]; !isQ || env.shadowable[n.Name] {
+				if tv, ok := env.resolve(n.Name); ok {
+					return tv, nil
+				}
+			}
+		}
 		if tv, ok := env.vars[n.Name]; ok {
 			return tv, nil
 		}
@@ -425,6 +435,7 @@ func (env *Env) derefStruct(p TV) (TV, types.Type, error) {
 	}
 	if pt, ok := t.Underlying().(*types.Pointer); ok {
 		f := env.e.ptrFam(pt.Elem())
+		env.e.closure(env.st, f, pt.Elem(), "")
 		return TV{fmt.Sprintf("(select %s %s)", env.e.get(env.st, f), p.T), pt.Elem()}, pt.Elem(), nil
 	}
 	return p, t, nil
@@ -546,9 +557,11 @@ func (env *Env) evalIndex(n *Index) (TV, error) {
 		if kt, ok := goType(iv); ok && isInterface(u.Key()) && !isInterface(kt) {
 			key = TV{e.S.toVal(iv.T, kt), u.Key()}
 		}
+		e.closure(env.st, vl, u.Elem(), e.S.sortOf(u.Key()))
 		return TV{fmt.Sprintf("(select (select %s %s) %s)", e.get(env.st, vl), xv.T, key.T), u.Elem()}, nil
 	case *types.Slice:
 		f := e.elemFam(u.Elem())
+		e.closure(env.st, f, u.Elem(), "Int")
 		if a := env.anchors[iv.T]; a != nil && !strings.Contains(xv.T, iv.T) {
 			if a.slice == "" {
 				a.slice = xv.T
@@ -605,6 +618,59 @@ func (env *Env) mapContent(m TV) (dom, val Term, mt *types.Map, err error) {
 func (env *Env) evalCall(n *Call) (TV, error) {
 	e := env.e
 	switch n.Fn {
+	case "atcall":
+		// atcall(contract, e): e evaluated in the heap right after the first call of the contract in this activation
+		if len(n.Args) != 2 {
+			return TV{}, fmt.Errorf("atcall(contract, expr)")
+		}
+		key := flattenName(n.Args[0])
+		for _, pre := range []string{"", "iface:", "sig:", "extern:"} {
+			if sn, ok := env.st.snaps[pre+key]; ok {
+				o := *env
+				o.st = sn
+				return o.eval(n.Args[1])
+			}
+		}
+		// no call on any path reaching here: the expression is evaluated in the entry state
+		o := *env
+		o.st = env.old
+		return o.eval(n.Args[1])
+	case "ncalls", "lastret", "lastarg", "firstret":
+		key := flattenName(n.Args[0])
+		full := ""
+		for _, pre := range []string{"", "iface:", "sig:", "extern:"} {
+			if _, ok := e.P.Contracts.Funcs[pre+key]; ok {
+				full = pre + key
+				break
+			}
+		}
+		if full == "" {
+			return TV{}, fmt.Errorf("%s: no contract %q", n.Fn, key)
+		}
+		if n.Fn == "ncalls" {
+			if t, ok := env.st.ghost["n:"+full]; ok {
+				return TV{t, tyInt}, nil
+			}
+			if t, ok := e.ghostEntry["n:"+full]; ok {
+				return TV{t, tyInt}, nil
+			}
+			return TV{}, fmt.Errorf("ncalls: %s is not logged", full)
+		}
+		if len(n.Args) != 2 {
+			return TV{}, fmt.Errorf("%s(contract, name)", n.Fn)
+		}
+		pfx := "ret:"
+		if n.Fn == "lastarg" {
+			pfx = "arg:"
+		}
+		if n.Fn == "firstret" {
+			pfx = "fret:"
+		}
+		gk := pfx + full + ":" + flattenName(n.Args[1])
+		if t, ok := env.st.ghost[gk]; ok {
+			return TV{t, e.ghostTy[gk]}, nil
+		}
+		return TV{}, fmt.Errorf("%s: nothing recorded for %s (no call on this path?)", n.Fn, gk)
 	case "old":
 		if len(n.Args) != 1 {
 			return TV{}, fmt.Errorf("old(e)")
@@ -823,4 +889,16 @@ func (env *Env) unchangedObj(a TV) (Term, error) {
 		return fmt.Sprintf("(= (select %s (sref %s)) (select %s (sref %s)))", e.get(env.st, f), a.T, e.get(env.old, f), a.T), nil
 	}
 	return "", fmt.Errorf("unchanged: unsupported type %s", typeStr(t))
+}
+
+func flattenName(ex Expr) string {
+	switch n := ex.(type) {
+	case *Ident:
+		return n.Name
+	case *Sel:
+		return flattenName(n.X) + "." + n.Name
+	case *StrLit:
+		return n.V
+	}
+	return "?"
 }
